@@ -238,7 +238,17 @@ pub fn run_invocation(sc: &Scenario, case: &mut Case, inv: &Invocation, tag: &st
     let _ = std::fs::remove_file(&trace_path);
     let entry_dir = case.project_dir(sc, inv.entry);
     let t0 = std::time::Instant::now();
-    let out = Command::new(sim_binary())
+    let mut cmd = Command::new(sim_binary());
+    // a corrupted length field must fail its allocation at once instead of touching gigabytes
+    unsafe {
+        use std::os::unix::process::CommandExt;
+        cmd.pre_exec(|| {
+            let lim = libc::rlimit { rlim_cur: 1 << 31, rlim_max: 1 << 31 };
+            libc::setrlimit(libc::RLIMIT_AS, &lim);
+            Ok(())
+        });
+    }
+    let out = cmd
         .arg("-p")
         .arg(&entry_dir)
         .args(&inv.args)
